@@ -132,7 +132,10 @@ fn check_coset(c: &CosetCase, obs: &mut Obs) -> Result<(), String> {
         // larger one is the coset table, so a smaller valid crate table is a certain violation and a
         // larger one would be an error of the harness's own enumeration.
         match todd_coxeter(c.nr_gens, &c.rels, &sub, 3_000) {
-            Some(t) => (t.len() as u64, 0),
+            Some(t) => {
+                ensure!(t.is_transitive() && t.relators_close(&c.rels).is_none() && sub.iter().all(|w| t.trace(0, w) == 0), "harness: the reference Todd-Coxeter table is not a valid coset table");
+                (t.len() as u64, 0)
+            }
             None => {
                 obs.discard("index infinite or beyond 3000 (reference enumeration gave up)");
                 return Ok(());
@@ -167,6 +170,7 @@ fn check_coset(c: &CosetCase, obs: &mut Obs) -> Result<(), String> {
     ensure!(reps.len() == t.len(), "{} coset representatives for {} rows", reps.len(), t.len());
     // differential: the action with base point H is unique up to relabelling that fixes row 0
     let own = todd_coxeter(c.nr_gens, &c.rels, &sub, 400_000).ok_or("harness: reference enumeration did not finish")?;
+    ensure!(own.is_transitive() && own.relators_close(&c.rels).is_none() && sub.iter().all(|w| own.trace(0, w) == 0), "harness: the reference Todd-Coxeter table is not a valid coset table");
     ensure!(own.len() == t.len() && own.based_code(0) == t.based_code(0), "table differs from the reference Todd-Coxeter table as a based action ({} vs {} rows)", t.len(), own.len());
     // bijection rows <-> right cosets in the regular representation
     if c.order > 0 && c.order <= 2000 {
